@@ -259,7 +259,7 @@ def gen_wrap(tier, seed):
               {"error": (np.outer(ABS, ABS) * CORM).tolist()}, {"error_cor": [0.1, 0.2], "error": 0.1}, {"error_rel": (np.outer(REL, REL) * CORM).tolist(), "errors_rel_to_model": False}]:
         yield {"wrapper": "indexed_fit", "errors": e, "extra": {}}
     for e in [{"error": 0.3}, {"error": A6}, {"error_rel": 0.05}, {"error_rel": 0.05, "errors_rel_to_model": False}, {"error_cor": 0.2, "error": 0.1}, {"error_cor_rel": 0.04, "error": 0.1},
-              {"error": (np.outer(A6, A6) * C6).tolist()}, {"error_cor": [0.1, 0.2], "error": 0.1}]:
+              {"error": (np.outer(A6, A6) * C6).tolist()}, {"error_cor": [0.1, 0.2], "error": 0.1}, {"error_cor_rel": 0.04}, {"error_cor": 0.2}]:
         yield {"wrapper": "hist_fit", "errors": e, "extra": {}}
     yield {"wrapper": "hist_fit", "errors": {}, "extra": {}}
     yield {"wrapper": "hist_fit", "errors": {}, "extra": {"density": False}}
